@@ -670,9 +670,14 @@ void init_configs()
     configs() = {
 #if C03_PART == 0 || C03_PART == 1
         SSC(TCM, 1), SSC(TCM, 2), SSC(TCM, 4), SSC(TCM, 8), SSC(TMO, 1), SSC(TMO, 2), SSC(TMO, 4), SSC(TMO, 8), SSC(TCO, 2), SSC(TCO, 4), SSC(TCO, 8),
+        // element shapes of C03_shared.cpp: NC copy may throw, NM move may throw, AO overloaded unary operator&
+        SSC(NC<0>, 4), SSC(NM<0>, 4), SSC(AO<0>, 4),
 #endif
 #if C03_PART == 0 || C03_PART == 2
         FSC(TCM, 0), FSC(TCM, 1), FSC(TCM, 2), FSC(TCM, 4), FSC(TCM, 8), FSC(TMO, 1), FSC(TMO, 2), FSC(TMO, 4), FSC(TMO, 8), FSC(TCO, 2), FSC(TCO, 4), FSC(TCO, 8),
+        // (flat_set<AO,...> is not part of the check: every insertion goes through static_vector::emplace(pos, ...), which forms
+        // its range with `&a, &a + 1` and does not compile for an element type with an overloaded unary operator&)
+        FSC(NC<0>, 4), FSC(NM<0>, 4),
 #endif
     };
 }
